@@ -711,14 +711,17 @@ def run(ctx):
     rng = ctx.rng
     cfgs = plan_configs(ctx)
     jobs = []
+    first = True
     for tag, slots, ops in cfgs:
         if ops is None or ops == "light":
-            ops = gen_ops(rng, paths, slots, ctx.tier, light=(ops == "light"))
+            slow = (first or ctx.tier == "thorough") and ops is None
+            ops = gen_ops(rng, paths, slots, ctx.tier, light=(ops == "light"), slow=slow)
+            first = False
         jobs.append((tag, slots, ops))
     with ThreadPoolExecutor(max_workers=6) as ex:
         futs = [ex.submit(run_config, paths, slots, ops, tag) for tag, slots, ops in jobs]
         results = [f.result() for f in futs]
-    branches, distinct = {}, set()
+    branches = {}
     tot = {"evaluations": 0, "validated": 0, "timeouts": 0, "inconclusive": 0, "l2": 0}
     subsets = set()
     for (tag, slots, ops), r in zip(jobs, results):
@@ -727,8 +730,6 @@ def run(ctx):
         subsets.add(tuple(st == "mock" or st == "common" for st, _ in slots))
         for lbl in r["labels"]:
             branches[lbl] = branches.get(lbl, 0) + 1
-        for (op, _), lbl in zip([o for o in ops], r["labels"][1:]):
-            pass
         opmeta = dict(ops)
         for kind, op, det in r["problems"]:
             meta = opmeta.get(op.split(" ast=")[0])
@@ -751,11 +752,7 @@ def run(ctx):
                 ctx.corr_broken.append({"what": kind, "op": op, "detail": det, "slots": slots_json(slots)})
         if len(ctx.violations) + len(ctx.corr_broken) > 6:
             break
-    # distinct non-trivial cases: distinct (configuration, op, label) whose label is one the property is about
-    for (tag, slots, ops), r in zip(jobs, results):
-        for lbl in r["labels"]:
-            if any(x in lbl for x in INTERESTING):
-                distinct.add(C.sha(tag + "|" + lbl + "|" + str(len(distinct) // 50)))
+    # distinct non-trivial cases: distinct (configuration, branch label) whose label is one the property is about
     n_dist = 0
     for (tag, slots, ops), r in zip(jobs, results):
         seen = set()
